@@ -318,7 +318,16 @@ func c24Gen(w *bufio.Writer, seed int64, tier string) {
 		if p == "" || p[0] != '/' {
 			p = "/" + p
 		}
-		if len(p) > 120 {
+		if r.chance(2) { // long paths: many segments / one very long segment in front of or behind a registered route
+			switch r.intn(3) {
+			case 0:
+				p = strings.Repeat("/seg", r.pick(64, 300, 2000)) + p
+			case 1:
+				p = p + "/" + strings.Repeat("x", r.pick(255, 256, 4096, 20000))
+			default:
+				p = strings.Repeat("/..", r.pick(50, 500)) + p
+			}
+		} else if len(p) > 120 {
 			p = p[:120]
 			if j := strings.LastIndexByte(p, '%'); j >= len(p)-2 && j >= 0 {
 				p = p[:j]
@@ -356,6 +365,10 @@ func c24Gen(w *bufio.Writer, seed int64, tier string) {
 			auth = c24Token
 		case 9:
 			auth = "Bearer " + c24Token + " "
+		case 10:
+			if r.chance(20) { // longer than bcrypt's 72-byte limit
+				auth = "Bearer " + strings.Repeat(c24Token, r.pick(6, 100, 3000))
+			}
 		}
 		hasq, qt := 0, ""
 		switch r.intn(10) {
@@ -367,6 +380,10 @@ func c24Gen(w *bufio.Writer, seed int64, tier string) {
 			hasq, qt = 1, ""
 		case 4:
 			hasq, qt = 1, c24Token+"x"
+		case 5:
+			if r.chance(20) {
+				hasq, qt = 1, strings.Repeat("t", r.pick(73, 5000))
+			}
 		}
 		fmt.Fprintf(w, "req %s %s %s %s %s %d %s\n", hexTok([]byte(cfgtok)), flags, methods[r.intn(len(methods))], hexTok([]byte(p)), hexTok([]byte(auth)), hasq, hexTok([]byte(qt)))
 	}
